@@ -18,6 +18,7 @@ their fault handling is decided on the real code by `harness/props/c08.py` (and 
 import SshuttleModel.Lemmas.SockInv
 import SshuttleModel.Lemmas.MuxMove
 import SshuttleModel.Props.C01
+import SshuttleModel.Code.Accept
 
 namespace Sshuttle.Tunnel
 open Sshuttle.Mux (Frame)
@@ -820,5 +821,38 @@ example :
     | trivial
     | (simp only [SafeStep, HandledConn, effErrno]; decide)
     | (exact ⟨by decide, Or.inr (Or.inr (Or.inr ⟨by decide, by decide⟩))⟩)
+
+
+/-! ### Faults in front of the flow: the accept handler -/
+
+/-- A reset that arrives between `accept()` and the construction of the flow's wrapper makes
+`getpeername()` fail (ENOTCONN on Linux, EINVAL on BSD/macOS, ENOTSOCK for a closed descriptor):
+the accept handler swallows each of them, the flow is created and then ends through the ordinary
+receive-error path — the client does not end.  (`Generated.PEERNAME_TOLERATED` is read off the
+handler in `ssnet._try_peername` on every run.) -/
+theorem C08_reset_at_accept_contained (e : Nat)
+    (h : e = Generated.ENOTCONN ∨ e = Generated.EINVAL ∨ e = Generated.ENOTSOCK) :
+    Accept.peername (some e) = .created := by
+  rcases h with h | h | h <;> subst h <;> decide
+
+/-- Descriptor exhaustion at `accept()` (EMFILE / ENFILE) ends at most the arriving connection:
+for every number of free descriptor slots — zero included, which is the case the path exists for —
+the handler's sequence of descriptor operations (read off `client.onaccept_tcp` on every run) never
+needs a slot it has not freed itself, closes the connection it accepted, and leaves the spare
+descriptor open again, with as many free slots as before. -/
+theorem C08_fd_exhaustion_contained (e free : Nat) (h : e = Generated.EMFILE ∨ e = Generated.ENFILE) :
+    Accept.acceptError e { free := free } = (.refused, some { free := free }) := by
+  have hp : Accept.emfilePath = some [.closeExtra, .accept, .closeSock, .openExtra, .ret] := by decide
+  have hc : Generated.ACCEPT_HANDLED.contains e = true := by
+    rcases h with h | h <;> subst h <;> decide
+  unfold Accept.acceptError
+  rw [hc, hp]
+  simp [Accept.Fd.run, Accept.Fd.op]
+
+/-- Any other `accept()` error is not handled by the accept handler (it is re-raised: outside the
+property's fault list, recorded so that the boundary is explicit). -/
+theorem C08_accept_other_errors_raise (e : Nat) (s : Accept.Fd) (h : Generated.ACCEPT_HANDLED.contains e = false) :
+    (Accept.acceptError e s).1 = .died := by
+  unfold Accept.acceptError; rw [h]; rfl
 
 end Sshuttle.Tunnel
